@@ -57,6 +57,8 @@ def dispatch (op : String) (args : List String) : String :=
   | "gtrav" => AlgoRun.handleTrav args
   | "gsort" => AlgoRun.handleSort args
   | "gsubtopo" => AlgoRun.handleSubTopo args
+  | "gsubtree" => AlgoRun.handleSubtree args
+  | "gtosub" => AlgoRun.handleToSub args
   | "glazy" => AlgoRun.handleLazy args
   | "gchain" => AlgoRun.handleChain args
   | "asm" => Asm.handle args
